@@ -10,7 +10,10 @@ use quote::quote;
 use regex::Regex;
 use trustfall::{Schema, SchemaAdapter, TryIntoStruct};
 
-use crate::util::{escaped_rust_name, parse_import, to_lower_snake_case, upper_case_variant_name};
+use crate::util::{
+    derived_conversion_fn_suffix, escaped_rust_name, parse_import, to_lower_snake_case,
+    upper_case_variant_name,
+};
 
 use super::{
     adapter_creator::make_adapter_file, edges_creator::make_edges_file,
@@ -426,14 +429,26 @@ fn ensure_no_vertex_name_conflicts(querying_schema: &Schema, adapter: Arc<Schema
     rows.sort_unstable();
 
     let mut uniq: HashMap<String, String> = HashMap::new();
+    let mut uniq_conversions: HashMap<String, String> = HashMap::new();
 
     for row in rows {
         let name = row.name.clone();
         // we normalize to lower snake case here, however in vertex name we capitalize this name instead
         // it doesn't really matter though because the important one is just to normalize to the same capitalization scheme
         let converted = escaped_rust_name(to_lower_snake_case(&name));
-        let v = uniq.insert(converted, name);
+        let v = uniq.insert(converted, name.clone());
         if let Some(v) = v {
+            panic!(
+                "cannot generate adapter for a schema containing both '{}' and '{}' vertices, consider renaming one of them",
+                v, row.name
+            );
+        }
+
+        // The `as_<name>()` conversion methods that `#[derive(TrustfallEnumVertex)]` generates
+        // for the `Vertex` variants use a different name conversion: `A_B` and `AB` both get `as_a_b()`.
+        let variant_name = escaped_rust_name(upper_case_variant_name(&name));
+        let conversion = derived_conversion_fn_suffix(&variant_name);
+        if let Some(v) = uniq_conversions.insert(conversion, name) {
             panic!(
                 "cannot generate adapter for a schema containing both '{}' and '{}' vertices, consider renaming one of them",
                 v, row.name
